@@ -107,3 +107,12 @@ chk('C06', 'translation_validation',
     'across the first-listed plane, first index fastest, nothing outside the ranges, own universe -> lattice cell material.',
     TV_NOTE + '; <= 9 elements per lattice; known finding F15 (degenerate range + extra trivial range rejected) in known_findings.json', TV_TECH,
     'DESIGN.md 4/C06')
+
+chk('C11', 'other',
+    '(a) real cellcard.split + get_ast (normalize, grammar, GeomSemantics) on generated cell cards: exhaustive expression trees up to 2 operands, '
+    'sampled 3-6 operands, over signed surfaces, facets, #n, #( ), written with the spacing variants MCNP accepts and embedded in complete cards; '
+    'z3 proves the parsed tree equivalent to the MCNP meaning for ALL sense assignments (the text is enumerated: regex/PEG code cannot take a symbolic '
+    'string). (b) one De Morgan step of the real inverse() on nodes with opaque children (induction hypothesis) proven for all values: covers trees of '
+    'any size. (c) real pot_complement on cell tables with #n chains proven equal to the reference with #n := not region(n).',
+    'TatSu shim (DESIGN 1.1); bounded text family; known finding F16 (#( ... #n ... ) rejected) in known_findings.json',
+    'real parser on enumerated strings + z3 Boolean equivalence over all sense assignments; inductive De Morgan step', 'DESIGN.md 4/C11')
